@@ -95,11 +95,13 @@ class ProcessCallback:
     async def run(self) -> None:
         """Run the callback"""
         if not self._cancelled:
+            # Keep our own references: cancelling the handle while the callback is running clears the attributes
+            process, callback = self._process, self._callback
             try:
-                await self._callback(*self._args, **self._kwargs)
+                await callback(*self._args, **self._kwargs)
             except Exception:
                 exc_info = sys.exc_info()
-                self._process.callback_excepted(self._callback, exc_info[1], exc_info[2])
+                process.callback_excepted(callback, exc_info[1], exc_info[2])
             finally:
                 self._done()
 
